@@ -199,7 +199,7 @@ func (g *gen) lit(t Ty) string {
 		}
 		return "false"
 	case "str":
-		ss := []string{`""`, `"a"`, `"hello"`, `"goose lang"`, `"x-y_z.0"`, `"0123456789abcdef"`}
+		ss := []string{`""`, `"a"`, `"hello"`, `"goose lang"`, `"x-y_z.0"`, `"0123456789abcdef"`, `"100%"`, `"n=%d"`, `"%s%%"`}
 		return ss[g.pick(len(ss))]
 	}
 	return g.zero(t)
